@@ -163,9 +163,16 @@ def _v1_incr_clause(kind):
         if kind == "from_date":
             if not today:
                 return b_implies(notnone, v_truthy(a.pin_date))
+            # the calendar comes from one cal_info call whose argument is the requested date (maybe_date, else TODAY):
+            # not the parameterless "today", not a second look-up
+            arg = getattr(today[-1][3], "date", None)
+            if len(today) != 1 or arg is None:
+                return b_implies(notnone, v_truthy(a.pin_date))
+            # a concrete argument (version.TODAY) is right only when no date was requested
+            arg_ok = True if V.contains_sym(arg) else v_is_none(a.maybe_date)
             td = today[-1][2]
             same = lambda x: b_and(*[v_eq(field(R, f), field(x, f)) for f in V1_CAL_FIELDS])
-            return b_implies(b_and(notnone, b_not(v_truthy(a.pin_date))), b_ite(v1_cal_gt(old, td), same(old), same(td)))
+            return b_implies(b_and(notnone, b_not(v_truthy(a.pin_date))), b_and(arg_ok, b_ite(v1_cal_gt(old, td), same(old), same(td))))
         if kind == "build":
             return b_implies(notnone, v_cmp(">", s_int(field(R, "bid")), s_int(field(old, "bid"))))
         if kind == "numeric":
